@@ -100,14 +100,17 @@ def run(ctx: vlib.Ctx):
         "family 'multimod' spreads a schema over several user packages: same-named classes (incl. names living in the builder's namespace: Field, "
         "Alias, Dialect, Sentinel, ...) in different modules as fields of one holder; a generic base with a bare / wrapped TypeVar field whose "
         "argument comes from a foreign top-level package mentioned nowhere else; SerializableType / SerializationStrategy with use_annotations whose "
-        "string annotations name user classes bare or through user module objects called types / enum / typing / math / ... ; x import style x "
+        "string annotations name user classes bare or through user module objects called types / enum / typing / math / ... ; ONE generic dataclass "
+        "(one or two TypeVars) specialised with the same-named classes of two modules, in both argument orders, for two fields of one holder or two "
+        "holders compiled one after the other, at container depth <= 3; x import style x "
         "mixin / codec; every such schema must build, round-trip exactly and bind the annotated classes; "
         "family 'defaults' gives omit_default classes (Config / Config.dialect / call-time dialect / codec default_dialect) default values the "
         "generated text has to mention: tuples, 1-tuples, nested, variable and optional tuples holding Paths, IP addresses, UUID, Decimal, Fraction, "
         "dates, Enum and Flag members, arbitrary objects, named tuples, dataclass instances, frozensets, lists, dicts, NaN, via default and "
         "default_factory, mixin and codec, module and function scope (exact round trip demanded); "
         "family 'identity' instantiates the adversarial shapes the property names (same-qualname local classes, clean_id collisions, functional "
-        "Enum/NamedTuple/make_dataclass in a function, bogus __module__, re-bound names, MappingProxyType, defaultdict of a local class, class and "
+        "Enum/NamedTuple/make_dataclass in a function, bogus __module__, re-bound names, MappingProxyType, defaultdict of a local class, pairs of local "
+        "(or nested local) classes whose distinct names differ only in non-ASCII letters, class and "
         "module names shadowing names used by generated code) x class kind x position x entry point. Every schema is built under capture, every "
         "entry point is run on a valid value and on wire values with one position replaced by junk / deleted (error paths). "
         "distinct = distinct generated program texts (modulo uuid suffixes) + distinct schema tag sets; quantification over schemas is by sampling, "
@@ -127,7 +130,8 @@ def run(ctx: vlib.Ctx):
                                            "C17_local_alias_binding_refuted"], kernels=["K42", "K44"])
     ctx.theorems("props/C17_imports.vo", ["C17_imports_cover_partial", "C17_imports_cover_refuted", "C17_visited_imports", "C17_chain_root_is_package",
                                            "C17_chain_root_resolves"], kernels=["K46"])
-    ctx.coqchk(["VerifProps.C17_closed", "VerifProps.C17_cleanid", "VerifProps.C17_typeref", "VerifProps.C17_imports"], timeout=2400)
+    ctx.theorems("props/C17_speckey.vo", ["C17_spec_key_identity", "C17_short_key_refuted", "C17_spec_key_modules"], kernels=["K11"])
+    ctx.coqchk(["VerifProps.C17_closed", "VerifProps.C17_cleanid", "VerifProps.C17_typeref", "VerifProps.C17_imports", "VerifProps.C17_speckey"], timeout=2400)
     ctx.trusted += [
         "harness/c17_translate.py: Python ast -> Closed.v AST (fail-closed; interning of names is injective by construction); "
         "the abstraction itself: expressions = tree of loaded names, attribute access / calls / operators never bind names",
@@ -188,7 +192,7 @@ def run(ctx: vlib.Ctx):
     # (resource rule of the shared machine: at most 6 concurrent workers / coqc also in the thorough tier; budgets sized for that:
     #  two thorough runs with 2600 / 1300 grammar schemas were killed by the machine-wide OOM killer in round 6)
     n_grammar = ctx.budget(120, 500)
-    n_ident = ctx.budget(40, 120)
+    n_ident = ctx.budget(48, 140)
     jobs = 4 if ctx.quick() else 6
     res_g, skip_g = run_family(ctx, "grammar", n_grammar, ctx.budget(24, 40), jobs, ctx.budget(10, 25), 8.0)
     res_i, skip_i = run_family(ctx, "identity", n_ident, ctx.budget(12, 20), jobs, ctx.budget(10, 20), 8.0)
@@ -244,6 +248,7 @@ def run(ctx: vlib.Ctx):
     render_corr(ctx, all_res)
     k44_corr(ctx, all_res)
     k46_corr(ctx, all_res)
+    speckey_corr(ctx, all_res)
 
     # ---- per-program kernel-checked closedness (translation validation)
     t_workers = time.time() - t_start
@@ -474,6 +479,57 @@ def render_corr(ctx, all_res):
     if missing:
         ctx.not_shown("rendering in generated error paths", "; ".join(missing[:10]))
     ctx.count(n=len(cs))
+
+
+def speckey_corr(ctx, all_res):
+    """the key of a generic specialisation: model md5(",".join(Render.render arg)) (C17SpecKey.spec_key) vs the real hash_type_args on
+    every specialisation G[args] of a generic dataclass in the field annotations of the generated schemas; and, within one schema,
+    two specialisations of one generic class with different argument OBJECTS never share the real key (a shared key means the second
+    one reuses the function compiled for - and bound to the classes of - the first)"""
+    import hashlib
+    cases, labels = [], []
+    hash_bad, shared = [], []
+    n_spec = n_pairs = 0
+    for fam, r in all_res:
+        scs = r.get("spec_cases") or []
+        for g, terms, real, ids, reprs, joined in scs:
+            n_spec += 1
+            if hashlib.md5(joined.encode()).hexdigest() != real:
+                hash_bad.append(f"{fam}/{r['idx']} {g}[{', '.join(reprs)}]: hash_type_args = {real}, model md5({joined!r}) = {hashlib.md5(joined.encode()).hexdigest()}")
+            if terms is not None:
+                c = f"([{'; '.join(terms)}], {vlib.coq_str(joined)})"
+                if c not in cases:
+                    cases.append(c)
+                    labels.append(f"{g}[{joined}]")
+        for i in range(len(scs)):
+            for j in range(i + 1, len(scs)):
+                a, b = scs[i], scs[j]
+                if a[0] == b[0] and a[3] != b[3]:
+                    n_pairs += 1
+                    if a[2] == b[2]:
+                        shared.append(f"{fam}/{r['idx']} {a[0]}[{', '.join(a[4])}] and {b[0]}[{', '.join(b[4])}] share the key {a[2]}")
+    ctx.hist("spec-key", "specialisations-of-generic-dataclasses", n_spec)
+    ctx.hist("spec-key", "pairs-with-different-argument-objects", n_pairs)
+    ctx.correspondence("real hash_type_args(args) = md5 of the modelled key text, on every specialisation of a generic dataclass in the generated schemas",
+                       n_spec, len(hash_bad), "; ".join(hash_bad[:4]))
+    ctx.obligation("the key of a generic specialisation is md5(','.join(rendered argument names))", not hash_bad, "; ".join(hash_bad[:4]))
+    if hash_bad:
+        ctx.not_shown("specialisation key model", "; ".join(hash_bad[:6]))
+    ctx.obligation("two specialisations of one generic dataclass with different argument classes never share a key", not shared, "; ".join(shared[:4]))
+    if shared:
+        ctx.not_shown("specialisation key identity", "the second specialisation reuses the function bound to the classes of the first: " + "; ".join(shared[:6]))
+    bad, log = vlib.coq_bad_idx(f"c17_speckey_{ctx.seed}", "Render SpecKey C17SpecKey", "", "", cases,
+                                "fun c => String.eqb (SpecKey.join (key_names (fst c))) (snd c)", "list rty * string", shard=700,
+                                needs=["theories/C17SpecKey.vo"])
+    name = "C17SpecKey.key_names/join (model of the text hashed by hash_type_args) vs ','.join(type_name(arg)) on the specialisations of the generated schemas"
+    if bad is None:
+        ctx.correspondence(name, len(cases), -1, log)
+        ctx.not_shown("correspondence specialisation key text", log)
+    else:
+        ctx.correspondence(name, len(cases), len(bad), "; ".join(labels[i] for i in bad[:6]))
+        if bad:
+            ctx.not_shown("correspondence specialisation key text", "; ".join(labels[i] for i in bad[:6]))
+    ctx.count(n=len(cases))
 
 
 def clean_id_corr(ctx):
